@@ -48,6 +48,25 @@ COMPONENTS = {"real": ["pygamma_agreement.sampler.ShuffleContinuumSampler", "Con
               "stub": ["numpy.random.uniform / choice return values in adversarial draws (legal extremes)"]}
 
 
+def _gen_reference(ch, n, scale, long_, offset):
+    names = world.ANNOTATOR_NAMES[:n]
+    labels = world.LABELS_ALPHA
+    ann = []
+    for nm in names:
+        k = ch.randint(0 if n > 2 else 1, 8)
+        units = []
+        t = offset
+        for _ in range(k):
+            t += ch.uniform(0.2, 3.0) * scale * (3.0 if long_ else 0.3)
+            d = ch.uniform(0.5, 3.0) * scale
+            units.append([world.r3(t), world.r3(t + d), ch.choice(labels)])
+            t += d * ch.choice([1.0, 1.0, 0.5])
+        ann.append([nm, units])
+    if sum(len(u) for _, u in ann) == 0:
+        ann[0][1].append([1.0, 3.0, "a"])
+    return {"annotators": ann, "family": "shuffle_ref", "labelset": "alpha"}
+
+
 def gen(ch, tier):
     n = ch.choice([2, 3, 3, 4, 5])
     names = world.ANNOTATOR_NAMES[:n]
@@ -73,7 +92,12 @@ def gen(ch, tier):
         gt = sorted(ch.sample(names, ch.randint(2, n - 1)))
         if sum(len(u) for nm, u in ann if nm in gt) == 0:
             gt = None
-    return {"continuum": {"annotators": ann, "family": "shuffle_ref", "labelset": "alpha"},
+    # history: the same sampler object may have served another reference before (re-initialisation)
+    prior = None
+    if ch.coin(0.35):
+        prior = {"continuum": _gen_reference(ch.sub("prior"), ch.choice([2, 3, 4]), scale * ch.choice([0.05, 0.2, 5.0, 20.0]),
+                                             ch.coin(0.7), 0.0), "draws": ch.randint(1, 3)}
+    return {"continuum": {"annotators": ann, "family": "shuffle_ref", "labelset": "alpha"}, "prior": prior,
             "reset_bounds": offset > 0 and ch.coin(0.7), "pivot": ch.choice(["int_pivot", "float_pivot"]), "gt": gt,
             "draws": TIERS[tier]["draws"], "np_seed": ch.randint(0, 2**31 - 1), "adv_seed": ch.randint(0, 2**31 - 1),
             "adv_rate": ch.choice([0.1, 0.3, 0.6])}
@@ -149,6 +173,17 @@ def run(case):
     lo, hi = continuum.bounds
     sampler = pa.ShuffleContinuumSampler(pivot_type=case["pivot"])
     gt = case.get("gt")
+    prior_stats = 0
+    if case.get("prior"):
+        prior_c = world.build_continuum(case["prior"]["continuum"])
+        np.random.seed(case["np_seed"] ^ 0x5A5A)
+        sampler.init_sampling(prior_c)
+        for _ in range(case["prior"]["draws"]):
+            try:
+                sampler.sample_from_continuum
+                prior_stats += 1
+            except Exception:  # noqa: BLE001 - judged when it is the main reference of another case
+                pass
     sampler.init_sampling(continuum, gt)
     gt_names = gt or list(continuum.annotators)
     k = len(gt_names)
@@ -157,7 +192,8 @@ def run(case):
     dist = avg / 2
     long_enough = (hi - lo) > k * avg + 2.0
     int_mode = case["pivot"] == "int_pivot"
-    stats = {"draws": 0, "long_enough_cases": int(long_enough), "annotators_ge3": int(k >= 3)}
+    stats = {"draws": 0, "long_enough_cases": int(long_enough), "annotators_ge3": int(k >= 3),
+             "sampler_reused_after_other_reference": int(prior_stats > 0)}
     violations = []
     wrap_seen = False
     adv = Adversary(Choices(case["adv_seed"]), case["adv_rate"])
@@ -237,7 +273,7 @@ def run(case):
                 break
     if wrap_seen:
         stats["wrap_branch_cases"] = 1
-    cd = digest([case["continuum"], case["pivot"], case["gt"], case.get("reset_bounds")])
+    cd = digest([case["continuum"], case["pivot"], case["gt"], case.get("reset_bounds"), case.get("prior")])
     keys = {"cases": [cd], "nontrivial": [cd] if (k >= 3 and long_enough and stats.get("separation_checked", 0) > 0) else []}
     return {"violations": violations, "stats": stats, "keys": keys,
             "digest": digest([stats["draws"], stats.get("wrapped_units", 0), [v["kind"] for v in violations]]),
@@ -267,6 +303,14 @@ def shrink_candidates(case, violation):
         s = copy.deepcopy(case)
         s["reset_bounds"] = False
         yield s
+    if case.get("prior"):
+        s = copy.deepcopy(case)
+        s["prior"] = None
+        yield s
+        for c in common.shrink_continuum(case["prior"]["continuum"]):
+            s = copy.deepcopy(case)
+            s["prior"]["continuum"] = c
+            yield s
     if case["adv_rate"] > 0:
         s = copy.deepcopy(case)
         s["adv_rate"] = 0.0
